@@ -194,7 +194,8 @@ def _fun_src(shape: Shape, f: str, prog: Dict[str, Any], names: Dict[str, str],
     args = arg_map(prog)
     lines = []
     if shape.dpath[f]:
-        lines.append("@dds.data_function(%s)" % pexpr(shape, shape.dpath[f]))
+        # realisation `deco`: the alias dds_function of the decorator
+        lines.append("@dds.%s(%s)" % (shape.real.get("deco", "data_function"), pexpr(shape, shape.dpath[f])))
     par = shape.param[f]
     sig = {"none": "", "x": "x", "xdef": "x=%d" % (7 + prog.get("defv", {}).get(f, 0))}[par]
     ind = ""
